@@ -283,11 +283,42 @@ static void external_body(int who) {
 
 static std::atomic<int> g_ext_done{0};
 
+// "reserved": an arena with TWO slots reserved for external threads.  Thread 0 sits in slot 0; a second external thread enters (slot 1, a reserved
+// slot above 0), submits units from there and leaves without running or waiting for them; thread 0 (and workers, if P allows any) must find
+// them in the pool of the vacated slot: "no matter which thread finally takes it ... or a thread that entered the arena later"
+static tbb::task_arena* g_shared_arena = nullptr;
+static tbb::task_group* g_shared_tg = nullptr;
+static std::atomic<int> g_stage{0};
+static int g_res_lo = 0, g_res_hi = 0;
+static void prog_reserved_main() {
+    tbb::task_arena a(g_P > 2 ? g_P : 2, 2);
+    a.initialize();
+    tbb::task_group tg;
+    g_shared_arena = &a; g_shared_tg = &tg;
+    a.execute([&] {
+        g_stage.store(1);
+        while (g_stage.load() < 2) _mm_pause();            // the producer has submitted from its slot and left the arena
+        tg.wait();
+        M->covered(g_res_lo, g_res_hi, "task_group::wait by a thread that did not submit the units (submitted from another reserved slot, submitter gone)");
+    });
+    g_shared_arena = nullptr; g_shared_tg = nullptr;
+}
+static void reserved_producer() {
+    while (g_stage.load() < 1) _mm_pause();
+    g_shared_arena->execute([&] {
+        g_res_lo = M->next;
+        for (int i = 0; i < 2 * g_size + 2; ++i) g_shared_tg->run(Unit{M->fresh()});
+        g_res_hi = M->next;
+    });
+    g_stage.store(2);
+}
+
 static bool run_once(verif::Schedule& sch, int run_idx, bool print_ok) {
     Mon mon; M = &mon;
     g_freed.clear(); g_mem_on = true;
     g_ext_done.a.store(0);
-    int nextra = (g_prog == "oversub") ? 2 : 0;
+    int nextra = (g_prog == "oversub") ? 2 : (g_prog == "reserved") ? 1 : 0;
+    g_stage.a.store(0);
     std::vector<std::function<void()>> bodies;
     bodies.push_back([&] {
         tbb::global_control gc(tbb::global_control::max_allowed_parallelism, (size_t)g_P);
@@ -301,11 +332,12 @@ static bool run_once(verif::Schedule& sch, int run_idx, bool print_ok) {
         else if (g_prog == "enqueue") prog_enqueue();
         else if (g_prog == "cancel") prog_cancel();
         else if (g_prog == "oversub") external_body(0);
+        else if (g_prog == "reserved") prog_reserved_main();
         while (g_ext_done.load() < nextra) _mm_pause();
         tbb::finalize(h);
     });
     for (int k = 0; k < nextra; ++k) bodies.push_back([&, k] {
-        external_body(1 + k);
+        if (g_prog == "reserved") reserved_producer(); else external_body(1 + k);
         tbb::detail::r1::governor::terminate_external_thread();
         g_ext_done.fetch_add(1);
     });
